@@ -46,6 +46,29 @@ def valid_route(g, r):
     return True, cost
 
 
+def reject_reason(g, r):
+    """why the independent definition rejects `r` (feature only)"""
+    nodes, arcs = g["nodes"], {(a[0], a[1]): a for a in g["arcs"]}
+    if len(r) < 2 or r[0] != 0 or r[-1] != 0:
+        return "ends"
+    inner = r[1:-1]
+    if len(set(inner)) != len(inner) or 0 in inner:
+        return "repeat"
+    time, load = nodes[0][2], g["init"]
+    for k, (a, b) in enumerate(zip(r, r[1:])):
+        if (a, b) not in arcs:
+            return "no-arc"
+        time = max(time + arcs[(a, b)][4], nodes[b][2])
+        if nodes[b][3] != core.INF and time > nodes[b][3]:
+            return "late-at-depot" if b == 0 else ("late-intermediate" if k < len(r) - 3 else "late-last-customer")
+        load = load - nodes[b][1]
+        if load < 0:
+            return "load-negative"
+        if load > g["cap"]:
+            return "load-over-capacity"
+    return "valid"
+
+
 def all_routes(g, limit=400):
     n = len(g["nodes"])
     arcs = {(a[0], a[1]) for a in g["arcs"]}
@@ -65,9 +88,55 @@ def all_routes(g, limit=400):
     return out
 
 
+def gen_planted_history(rng):
+    """instance with planted multi-customer routes; the history offers them, their permutations, and versions of the instance in which
+    one window closes a quarter before the planted arrival (late at an intermediate / last customer) or a load bound is exceeded"""
+    spec, info = VU.gen_planted(rng, ncust=rng.randint(2, 4), extra_arc_p=rng.choice([0.2, 0.5]), wide=rng.random() < 0.5)
+    planted = [r for r in info["routes"]]
+    r = max(planted, key=len)
+    mut = rng.choice(["none", "late", "late", "overload", "underload"])
+    if mut == "late" and len(r) > 2:
+        # arrival times along r when the depot opens at 0 and early arrivals wait
+        t, arcs = Fraction(0), {(a[0], a[1]): Fraction(a[2]) for a in spec["arcs"]}
+        lo = {nd["name"]: Fraction(nd["lo"]) for nd in spec["nodes"]}
+        arr = {}
+        for a, b in zip(r, r[1:]):
+            t = max(t + arcs[(a, b)], lo[b])
+            arr[b] = t
+        victim = rng.choice(r[1:-1])
+        for nd in spec["nodes"]:
+            if nd["name"] == victim:
+                nd["hi"] = fs(arr[victim] - Fraction(1, 4))
+                nd["lo"] = fs(min(Fraction(nd["lo"]), arr[victim] - Fraction(1, 4)))
+    elif mut == "overload":
+        spec["cap"] = fs(Fraction(spec["init"]) - Fraction(1, 4)) if rng.random() < 0.5 else spec["cap"]
+        for nd in spec["nodes"][1:2]:
+            nd["demand"] = fs(-Fraction(1, 2))          # a pick-up that pushes the load above the capacity
+    elif mut == "underload":
+        spec["init"] = "1/4"
+    ops = []
+    cands = [list(x) for x in planted]
+    for x in planted:
+        inner = x[1:-1]
+        if len(inner) >= 2:
+            y = inner[:]
+            rng.shuffle(y)
+            cands.append(["D"] + y + ["D"])
+            cands.append(["D"] + inner[:-1] + ["D"])
+    rng.shuffle(cands)
+    names = [nd["name"] for nd in spec["nodes"]]
+    for c in cands[:6]:
+        enc = rng.choice(["names", "idx", "mixed"])
+        ops.append(["R", [(names.index(x) if enc == "idx" or (enc == "mixed" and rng.random() < 0.5) else x) for x in c]])
+    return dict(spec=spec, ops=ops)
+
+
 def gen(rng, tier):
     n_cases = 220 if tier == "quick" else 3000
-    for _ in range(n_cases):
+    for k in range(n_cases):
+        if k % 3 == 2:
+            yield gen_planted_history(rng)
+            continue
         spec = VU.gen_vrptw(rng, nmax=5)
         names = [n["name"] for n in spec["nodes"]]
         v = None
@@ -219,6 +288,7 @@ def run_case(case, drv):
             rej += 1
             continue
         want, wcost = valid_route(g, idx_route)
+        res.features.append(f"route:{reject_reason(g, idx_route)}:{min(len(idx_route) - 2, 3)}cust")
         if feas is None or f2 is None:
             res.fail("route:raises", f"check_route/add_route raised on {route}: {chk} / {add}")
             continue
